@@ -214,6 +214,12 @@ def run(chk):
                 '0-2 isotope labels on different elements, charge and adducts present or absent x include_plus x precision 3..8; '
                 'non-trivial = the input carries at least one modification, rule or label; distinct = distinct protocol line')
     N = 2500 if not big else 30000
+    cov = E.LineCoverage([mass_calc.condense_to_mass_mods, pp.ProFormaAnnotation.condense_static_mods, pp.ProFormaAnnotation.split,
+                          pp.ProFormaAnnotation.slice, pp.ProFormaAnnotation.strip, pp.ProFormaAnnotation.add_internal_mod,
+                          pp.parse_static_mods, pp.parse_isotope_mods, mass_calc._pop_delta_mass_mods,
+                          chem_calc.apply_isotope_mods_to_composition, pp._serialize_annotation_start,
+                          pp._serialize_annotation_middle, pp._serialize_annotation_end])
+    cov.start()
     cases = _load_corpus() + [gen_case(rng, Mod) for _ in range(N)]
     fixed = ['PEP[Phospho]TIDE/2', 'PEP[Phospho]TIDE', '[1]?PEPTIDE', 'PE(PT)[10]IDE', '<[10]@N-Term>PEP', '<[10]@C-Term>PEP',
              '<[10]@P>PEP', '{100}PEPTIDE', '<13C>PEP', '<13C>[1]?PEP', 'PEP/2[+2Na+]', 'PEPTIDE', 'PEPTIDE/2', '[Acetyl]-PEP[1]^2T',
@@ -292,9 +298,12 @@ def run(chk):
     chk.oracle('condense_preserves_peptide', sel, o_prop, nontrivial_fn=nontrivial,
                key_fn=lambda c: f"{c['a']}|{int(c['plus'])}|{c['p']}")
 
+    cov.stop()
+    rep = cov.report()
+    chk.notes.append('line reach of the modelled Python functions during this run (sys.monitoring): ' + json.dumps(rep))
     if os.environ.get('VERIF_DEBUG'):
-        json.dump({'failures': chk.failures, 'disagreements': chk.disagreements}, open(os.environ['VERIF_DEBUG'], 'w'), indent=1,
-                  default=str)
+        json.dump({'failures': chk.failures, 'disagreements': chk.disagreements, 'coverage': rep},
+                  open(os.environ['VERIF_DEBUG'], 'w'), indent=1, default=str)
     if big:
         chk.leanchecker(['PeptVerif.Props.C18', 'PeptVerif.Model.CondenseMass'])
     return chk.finish(classify)
